@@ -375,3 +375,12 @@ Definition formDedupCounts (limit : Z) (g : graph) (forms : list Z) : nat * nat 
 Definition formDedupLateCounts (limit : Z) (g : graph) (forms : list Z) : nat * nat :=
   let s1 := dedupLate obj normForm (eqForm limit g) (map g forms) in
   (length s1, length (dedupLate obj normForm (eqForm limit g) s1)).
+
+(* ------------------------------------------------------------------ *)
+(* removeEmptyContentStreams (optimize.go, only when OptimizeDuplicateContentStreams is set):
+   a page's /Contents array keeps exactly the elements whose DECODED content is not empty
+   (`if len(contentStreamDict.Content) > 0 { newContentArr = append(newContentArr, c) }`);
+   the page content is the concatenation of the decoded elements (XRefTable.PageContent). *)
+Definition removeEmpty (l : list bytes) : list bytes :=
+  filter (fun c => negb (Nat.eqb (length c) 0)) l.
+Definition pageContent (l : list bytes) : bytes := concat l.
